@@ -26,6 +26,10 @@ func init() {
   identity base-id; identity id-a { base base-id; } identity id-b { base id-a; } identity other;
   leaf e { type enumeration { enum zero; enum one; enum five { value 5; } enum big { value 2147483647; } } }
   leaf-list le { type enumeration { enum zero; enum one; enum five { value 5; } enum big { value 2147483647; } } }
+  leaf e2 { type enumeration { enum mid { value 1; } enum low { value 0; } enum high; } }
+  leaf e3 { type enumeration { enum freezing { value -1; } enum cold; enum warm; enum hot { value 3; } } }
+  leaf e4 { type enumeration { enum ten { value 10; } enum neg { value -5; } enum two { value 2; } enum one { value 1; } } }
+  leaf-list le3 { type enumeration { enum freezing { value -1; } enum cold; enum warm; enum hot { value 3; } } }
   leaf b { type bits { bit x; bit y; bit z { position 5; } bit top { position 31; } } }
   leaf-list lb { type bits { bit x; bit y; bit z { position 5; } bit top { position 31; } } }
   leaf idr { type identityref { base base-id; } }
@@ -40,7 +44,7 @@ func init() {
 }`
 }
 
-var c10SchemaLeaves = []string{"e", "le", "b", "lb", "idr", "lidr", "r8", "r64", "lr8", "un", "us"}
+var c10SchemaLeaves = []string{"e", "le", "e2", "e3", "e4", "le3", "b", "lb", "idr", "lidr", "r8", "r64", "lr8", "un", "us"}
 
 func c10SchemaCases(tier string, emit func(interface{})) {
 	for _, lf := range c10SchemaLeaves {
@@ -51,6 +55,11 @@ func c10SchemaCases(tier string, emit func(interface{})) {
 }
 
 var c10Enum = map[string]int64{"zero": 0, "one": 1, "five": 5, "big": 2147483647}
+
+// enumerations whose values are not in the order of declaration, start below zero or have gaps
+var c10Enums = map[string]map[string]int64{"e": c10Enum, "le": c10Enum,
+	"e2": {"mid": 1, "low": 0, "high": 2}, "e3": {"freezing": -1, "cold": 0, "warm": 1, "hot": 3}, "le3": {"freezing": -1, "cold": 0, "warm": 1, "hot": 3},
+	"e4": {"ten": 10, "neg": -5, "two": 2, "one": 1}}
 var c10Bits = map[string]uint{"x": 0, "y": 1, "z": 5, "top": 31}
 var c10Idents = map[string]bool{"id-a": true, "id-b": true}
 
@@ -87,12 +96,12 @@ func c10SrcClass(s srcVal) string {
 }
 
 // checkEnum: an accepted source must denote the value or the name of the enum returned.
-func c10CheckEnum(s srcVal, got val.Value) (sym, what string) {
+func c10CheckEnum(leaf string, s srcVal, got val.Value) (sym, what string) {
 	e, ok := got.(val.Enum)
 	if !ok {
 		return "wrong-type", fmt.Sprintf("result is %T", got)
 	}
-	id, defined := c10Enum[e.Label]
+	id, defined := c10Enums[leaf][e.Label]
 	if !defined || int64(e.Id) != id {
 		return "undefined-enum-returned", fmt.Sprintf("result %v is not an enum of the type", e)
 	}
@@ -166,7 +175,7 @@ func c10CheckIdent(s srcVal, got val.Value) (sym, what string) {
 // extra text sources for the named types (added to the "string" kind)
 func c10NameSources() []srcVal {
 	var out []srcVal
-	for _, t := range []string{"zero", "one", "five", "big", "Zero", "zer", "zero ", "x", "y", "z", "top", "x y", "y x z top", "x  y", "x q", "x,y", "X",
+	for _, t := range []string{"zero", "one", "five", "big", "mid", "low", "high", "freezing", "cold", "warm", "hot", "ten", "neg", "two", "Zero", "zer", "zero ", "x", "y", "z", "top", "x y", "y x z top", "x  y", "x q", "x,y", "X",
 		"id-a", "id-b", "base-id", "other", "conv:id-a", "cv:id-b", "zz:id-a", "conv:other", ":id-a", "id-a:", "true", "false", ""} {
 		tt := t
 		sv := srcVal{v: tt, txt: &tt, lbl: fmt.Sprintf("%q", tt), class: "name-text"}
@@ -191,7 +200,7 @@ func c10RunSchema(c c10Case) eng.Result {
 		srcs = append(srcs, c10NameSources()...)
 	}
 	ocs := map[string]bool{}
-	target := map[string]string{"e": "enum", "le": "enum", "b": "bits", "lb": "bits", "idr": "identityref", "lidr": "identityref", "r8": "int8", "r64": "uint64", "lr8": "int8", "un": "union", "us": "union"}[c.Schema]
+	target := map[string]string{"e": "enum", "le": "enum", "e2": "enum", "e3": "enum", "e4": "enum", "le3": "enum", "b": "bits", "lb": "bits", "idr": "identityref", "lidr": "identityref", "r8": "int8", "r64": "uint64", "lr8": "int8", "un": "union", "us": "union"}[c.Schema]
 	site := fmt.Sprintf("C10/schema/%s%s/%s", target, map[bool]string{true: "-list", false: ""}[isList], kindGroup(c.Kind))
 	if strings.HasPrefix(c.Schema, "r") || c.Schema == "lr8" {
 		site = fmt.Sprintf("C10/schema/leafref-to-%s%s/%s", target, map[bool]string{true: "-list", false: ""}[isList], kindGroup(c.Kind))
@@ -199,7 +208,7 @@ func c10RunSchema(c c10Case) eng.Result {
 	checkOne := func(s srcVal, it val.Value) (string, string) {
 		switch target {
 		case "enum":
-			return c10CheckEnum(s, it)
+			return c10CheckEnum(c.Schema, s, it)
 		case "bits":
 			return c10CheckBits(s, it)
 		case "identityref":
